@@ -27,6 +27,7 @@ import json
 import logging
 import signal
 
+from ..impl import c10_handlers as hd
 from ..impl import c10_round as rm
 from ..translate import c10 as tr
 
@@ -337,6 +338,101 @@ def cascade_case(body, kid, name, extra_peer):
     return {"kind": "prog", "src": "\n".join(src) + "\n", "events": script, "meta": meta}
 
 
+
+# ----------------------------------------------------------------------------- phase 5: flows that REACT to ColangError, hostile error texts
+
+HANDLER_SETS = [
+    ["warning of colang errors"],
+    ["warning of colang errors"],
+    ["warning of colang errors", "notification of colang errors"],
+    ["notification of colang errors"],
+    ["h_esc_dq"], ["h_esc_sq"], ["h_esc_braces"], ["h_plain"], ["h_type_only"], ["h_twice"],
+    ["h_raw_dq"], ["h_raw_sq"],
+    ["warning of colang errors", "h_esc_dq", "h_plain"],
+    ["h_esc_sq", "h_twice"],
+]
+
+
+def with_handlers(case, names):
+    """an ordinary generated program plus activated flows that react to ColangError (shipped helpers cut out of $VERIF_REPO's core.co)"""
+    c = json.loads(json.dumps(case))
+    c["src"] = "\n".join(hd.handler_src(tr.REPO, names)) + "\n" + c["src"]
+    c["meta"]["handlers"] = list(names)
+    return c
+
+
+def hostile_case(rng, names, kind, relap, nul=False):
+    """faulty flow whose failing statement has string operands made of quoting characters (they end up in the error text), or
+    interpolates a hostile text carried by the external event; plus the handler flows `names`"""
+    lines, needs_t, matching = hd.hostile_stmt(rng, kind)
+    body = ["match Go() as $g"] + (["$t = $g.text"] if needs_t else []) + (["$v = 1"] if rng.random() < 0.3 else []) + lines + ["$after = 1"]
+    texts = [hd.hostile_text(rng, nul=nul and needs_t) for _ in range(2)]
+    lap = [{"type": "Go", "text": texts[0]}] + ([dict(M_EVENT)] if matching else []) + [{"type": "Next"}]
+    script = [{"type": "Boot"}] + lap
+    if relap:
+        script += [{"type": "Go", "text": texts[1]}] + ([dict(M_EVENT)] if matching else []) + [{"type": "Next"}]
+    names_ev = []
+    for e in script:
+        if e["type"] not in names_ev:
+            names_ev.append(e["type"])
+    src = hd.handler_src(tr.REPO, names) + ["@active", "flow faulty"] + ["  " + l for l in body] + [""]
+    src += observer_flows(names_ev, rng.choice(["direct", "direct", "sub"]))
+    src += ["flow main", "  match Never()"]
+    meta = {"mode": "active", "kind": "hostile-" + kind, "phase": "match" if matching else "slide", "waits_before": 1, "inject_at": 1, "nested": None,
+            "expect_error": True, "handlers": list(names), "hostile": True}
+    if relap:
+        meta["relap"] = True
+    if nul and needs_t:
+        meta["nul"] = True
+    return {"kind": "prog", "src": "\n".join(src) + "\n", "events": script, "meta": meta}
+
+
+INSTANT_BODIES = [
+    (["match Go()", "while True", '  await UtteranceBotAction(script="tick")'], "while-await-action"),
+    (["match Go()", "$n = 0", "while $n < 1000", '  await UtteranceBotAction(script="tick {$n}")', "  $n = $n + 1"], "counted-await-action"),
+    (['await UtteranceBotAction(script="tock")'], "activated-restart-on-action"),
+    (["match Go()", "while True", '  await UtteranceBotAction(script="tick")', '  $e = "t" + 3'], "loop-fails-after-first-action"),
+    # process_events feeds every OUTGOING event back in as an input event (next batch): a flow that waits for the event it sends itself
+    (["match Go()", "send Ping()", "while True", "  match Ping()", "  send Ping()"], "echo-own-outgoing-event"),
+    (["match Ping()", "send Ping()"], "activated-echo"),
+]
+
+
+def instant_case(body, name, max_events):
+    """a loop whose waiting statement is served by the event-processing API itself: `instant_actions` finishes every started bot action
+    right away and feeds the ...ActionFinished event back in. One process_events call processes at most runtime.max_events events
+    (anchor `runtime.max_events`): the bound on the number of processing rounds per call"""
+    src = ["@active", "flow ticker"] + ["  " + l for l in body] + [""]
+    script = [{"type": "Boot"}, {"type": "Go"}] + ([{"type": "Ping"}] if name == "activated-echo" else []) + [{"type": "Next"}]
+    src += observer_flows([e["type"] for e in script], "direct")
+    src += ["flow main", "  match Never()"]
+    meta = {"mode": "active", "kind": "none", "phase": "none", "waits_before": 0, "inject_at": -1, "nested": None, "expect_error": False,
+            "quick": "instant:" + name, "instant": ["UtteranceBotAction"], "max_events": max_events}
+    return {"kind": "prog", "src": "\n".join(src) + "\n", "events": script, "meta": meta}
+
+
+def gen_handler_cases(rng, tier, base_cases):
+    out = []
+    n_sets = len(HANDLER_SETS)
+    # every handler set x every kind of hostile statement (quick: 2 texts each, thorough: 12)
+    reps = 2 if tier == "quick" else 12
+    for r in range(reps):
+        for i, names in enumerate(HANDLER_SETS):
+            for j, kind in enumerate(dict.fromkeys(hd.STMT_KINDS)):
+                if tier == "quick" and (i + j + r) % 2:
+                    continue
+                out.append(hostile_case(rng, names, kind, relap=rng.random() < 0.4))
+    # NUL in an event-carried text (region of the open finding error-report-loop:unencodable-error-text)
+    for r in range(2 if tier == "quick" else 10):
+        out.append(hostile_case(rng, rng.choice(HANDLER_SETS[:3]), rng.choice(["event-text", "event-text-sq", "event-text-only"]), relap=False, nul=True))
+    # the ordinary error-injection programs (all error kinds, positions, start modes, histories) with handler flows activated
+    progs = [c for c in base_cases if c["kind"] == "prog" and c["meta"].get("expect_error")]
+    rng.shuffle(progs)
+    for k, c in enumerate(progs[: (120 if tier == "quick" else 1500)]):
+        out.append(with_handlers(c, HANDLER_SETS[k % n_sets]))
+    return out
+
+
 def gen_cases(rng, tier):
     n_prog = 40 if tier == "quick" else 420
     cases = [{"kind": "lib"}]
@@ -373,6 +469,10 @@ def gen_cases(rng, tier):
                     continue
                 nested = None if opts.get("at_instance") else rng.choice([None, None, "if"])
                 cases.append(build_program(stmts, pos, kind, mode, nested, opts))
+    cases += gen_handler_cases(rng, tier, cases)
+    for body, name in INSTANT_BODIES:
+        for me in ([12, 40] if tier == "quick" else [12, 20, 40, 120]):
+            cases.append(instant_case(body, name, me))
     return cases
 
 
@@ -404,6 +504,8 @@ class _R:
 
 def worker_init():
     logging.disable(logging.CRITICAL)
+    import warnings
+    warnings.filterwarnings("ignore", category=SyntaxWarning)  # `\{` written by escape() is an "invalid escape sequence" for ast.parse
     from nemoguardrails import RailsConfig
     from nemoguardrails.colang.v2_x.runtime import runtime as rtm
     from nemoguardrails.colang.v2_x.runtime import statemachine as sm
@@ -528,6 +630,28 @@ def install():
                 raise Budget("internal events")
             if event.name == "ColangError":
                 st["colang_errors"] += 1
+                t = event.arguments.get("error")
+                if isinstance(t, str) and len(st["err_texts"]) < 6:
+                    st["err_texts"].append(t)
+                rc = _R.round_ctx
+                if rc is not None and rc.get("phased") and _R.round is not None:
+                    # PHASED round (programs with flows that react to ColangError): the pop of a ColangError closes the current phase
+                    # and opens the next one from a snapshot of the state (heads parked on `match ColangError` may be woken once)
+                    st["phases"] += 1
+                    if st["phases"] > st["phase_limit"]:
+                        raise Budget(f"error-report phases: {st['phases']} ColangError events popped in one round > 2 + B = {st['phase_limit']}")
+                    if rc.get("handlers_total"):
+                        # bound of the error-report loop (theorem report_loop_terminates): handlers that cannot raise handle every reported
+                        # error exactly once and report none — the ColangError events of a round are those of the OTHER flows' errors
+                        others = sum(1 for e in st["errs"] if e[1] not in rc["handlers"])
+                        if st["phases"] > others + 1:
+                            raise Budget(f"error-report loop: {st['phases']} ColangError events popped in one round, but flows other than the "
+                                         f"ColangError handlers raised only {others} error(s) (every reported error is handled once)")
+                    _close_round(st, _R.round)
+                    rnd = rm.Round(rc["P"], rc["idx"], rc["pot"], sm, state, event, queued=list(state.internal_events))
+                    if rnd.bound is not None:
+                        rnd.limit, rnd.exc = min(rnd.bound, 200000), Budget
+                    _R.round = rnd
             elif event.name == "FlowFailed":
                 st["failed_uids"].append(event.arguments.get("source_flow_instance_uid"))
                 st["failed_flows"].append(str(event.arguments.get("flow_id")))
@@ -626,11 +750,17 @@ def install():
         st = _R.st
         rc = _R.round_ctx
         rnd = None
+        if st is not None:
+            st["rtc_calls"] += 1
+            if st["rtc_calls"] > st["rtc_limit"]:
+                raise Budget(f"processing rounds: {st['rtc_calls']} run_to_completion calls in one process_events call > runtime.max_events + 2 = {st['rtc_limit']}")
         if st is not None and rc is not None:
             rnd = rm.Round(rc["P"], rc["idx"], rc["pot"], sm, state, ev)
             if rnd.bound is not None:
                 rnd.limit, rnd.exc = min(rnd.bound, 200000), Budget
             _R.round = rnd
+            st["phases"] = 0
+            st["phase_limit"] = 2 + (rnd.bound if rnd.bound is not None else 200)
         try:
             return O["rtc"](state, ev)
         except Exception as e:  # noqa
@@ -643,13 +773,9 @@ def install():
                     pass
             raise
         finally:
-            _R.round = None
-            if rnd is not None:
-                try:
-                    res = rnd.finish()
-                except Exception as e:  # noqa
-                    res = {"tokens": [], "steps": [], "orphans": [f"recorder: {type(e).__name__}: {e}"], "bound": None, "n": 0}
-                st["rounds"].append(res)
+            cur, _R.round = _R.round, None
+            if rnd is not None and cur is not None:
+                _close_round(st, cur)
 
     sm.slide = slide_w
     sm._flow_head_changed = head_changed_w
@@ -664,6 +790,16 @@ def install():
     sm._start_flow = handling_w("start_flow")
     sm._create_event_reference = handling_w("create_ref")
     sm._finish_flow = finish_w
+
+
+def _close_round(st, rnd):
+    try:
+        res = rnd.finish()
+    except Exception as e:  # noqa
+        res = {"tokens": [], "steps": [], "orphans": [f"recorder: {type(e).__name__}: {e}"], "bound": None, "n": 0}
+    if len(st["rounds"]) >= 3 * ROUND_REPLAY_CAP:
+        res = {"tokens": [], "steps": [], "orphans": res["orphans"], "bound": res["bound"], "n": res["n"], "dropped": True}
+    st["rounds"].append(res)
 
 
 def _vt_alarm(signum, frame):
@@ -698,7 +834,7 @@ def run_impl(case):
     from nemoguardrails.colang.v2_x.runtime.flows import InternalEvents
     from nemoguardrails.colang.v2_x.runtime.runtime import create_flow_configs_from_flow_list
 
-    obs = {"calls": [], "samples": [], "scans": [], "over_bound": []}
+    obs = {"calls": [], "samples": [], "scans": [], "over_bound": [], "texts": []}
     try:
         flows = tr.parse_source(case["src"])
         with contextlib.redirect_stdout(io.StringIO()):
@@ -713,7 +849,19 @@ def run_impl(case):
         progs = {fid: tr.classify_flow(fc, InternalEvents.ALL)[0] for fid, fc in st0.flow_configs.items()}
         P, idx, unsupported = rm.round_prog(st0.flow_configs, lambda fc: progs[fc.id])
         pot = rm.Potential(P)
-        _R.round_ctx = {"P": P, "idx": idx, "pot": pot}
+        handlers = {fid: list(hd.handler_total(fc)) for fid, fc in st0.flow_configs.items() if hd.is_handler(fc)}
+        phased = False
+        if handlers:
+            # flows that react to ColangError: the round is read in PHASES (see c10_round.round_prog err_ext); the hypothesis of the
+            # error-report loop theorem (`report_loop_terminates`: no handler statement raises, whatever the error text) is decided
+            # statically per handler flow (hd.handler_total, Lean twin Tpl.total + handler_literal_valid)
+            P, idx, unsupported = rm.round_prog(st0.flow_configs, lambda fc: progs[fc.id], err_ext=True)
+            pot = rm.Potential(P)
+            phased = True
+            obs["handlers"] = handlers
+            obs["templates"] = [t for fid, fc in st0.flow_configs.items() if fid in handlers for t in hd.templates(fc)]
+        _R.round_ctx = {"P": P, "idx": idx, "pot": pot, "phased": phased, "handlers": set(handlers),
+                        "handlers_total": bool(handlers) and all(v[0] for v in handlers.values())}
         obs["rprog"] = [{k: v for k, v in fl.items() if k != "_id"} for fl in P]
         obs["round_ranked"] = pot.ok
         obs["round_unsupported"] = unsupported
@@ -728,14 +876,19 @@ def run_impl(case):
     signal.signal(signal.SIGVTALRM, _vt_alarm)
     for ev in case["events"]:
         st = {"slides": 0, "moves": 0, "ievents": 0, "colang_errors": 0, "rtc_exc": [], "samples": [], "scans": [], "scan": None,
-              "over_bound": [], "max_iter_ratio": 0.0, "budget": 10 ** 9, "rounds": [], "errs": [], "failed_uids": [], "failed_flows": [], "rtc_site": [], "leaf": []}
+              "over_bound": [], "max_iter_ratio": 0.0, "budget": 10 ** 9, "rounds": [], "errs": [], "failed_uids": [], "failed_flows": [], "rtc_site": [], "leaf": [],
+              "err_texts": [], "phases": 0, "phase_limit": 10 ** 9, "rtc_calls": 0, "rtc_limit": 10 ** 9}
         st["budget"] = BUDGET_FACTOR * (sum(len(p) for p in progs.values()) + 10)
         _R.st = st
         call = {"event": ev["type"], "out": [], "pe_exc": None, "budget_hit": None}
         signal.setitimer(signal.ITIMER_VIRTUAL, 15.0, 1.0)
+        max_events0 = _R.rt.max_events
+        if case["meta"].get("max_events"):
+            _R.rt.max_events = case["meta"]["max_events"]
+        st["rtc_limit"] = _R.rt.max_events + 2  # anchor runtime.max_events: at most that many events (= processing rounds) per call
         try:
             with contextlib.redirect_stdout(io.StringIO()):
-                out, state = asyncio.run(_R.rt.process_events([dict(ev)], state))
+                out, state = asyncio.run(_R.rt.process_events([dict(ev)], state, instant_actions=case["meta"].get("instant")))
             call["out"] = [e["type"] for e in out]
         except Budget as b:
             call["budget_hit"] = str(b)
@@ -745,12 +898,19 @@ def run_impl(case):
             signal.setitimer(signal.ITIMER_VIRTUAL, 0)
             _R.st = None
             _R.cur = None
+            _R.rt.max_events = max_events0
+        call["rtc_calls"] = st["rtc_calls"]
         call.update({k: st[k] for k in ("slides", "moves", "ievents", "colang_errors", "rtc_exc", "rtc_site", "max_iter_ratio")})
         # every flow INSTANCE in which a statement raised: what became of it by the end of this call
         call["errs"] = len(st["errs"])
         call["leaf"] = list(st["leaf"])
         call["failed_flows"] = sorted(set(st["failed_flows"]))
         call["err_types"] = sorted({e[3] for e in st["errs"]})
+        call["phases"] = st["phases"]
+        call["handler_errs"] = sorted({e[1] for e in st["errs"] if e[1] in obs.get("handlers", {})})
+        for t in st["err_texts"]:
+            if t not in obs["texts"] and len(obs["texts"]) < 8 and len(t) < 600:
+                obs["texts"].append(t)
         call["unfailed"] = []
         if not (call["budget_hit"] or call["pe_exc"] or state is None):
             seen_uid = set()
@@ -773,11 +933,23 @@ def run_impl(case):
         for r in st["rounds"]:
             obs["rounds"].append([r["n"], r["bound"]])
             obs["round_orphans"] += r["orphans"]
-            if len(obs["rounds_full"]) < ROUND_REPLAY_CAP and r["n"] > 0:
+            if len(obs["rounds_full"]) < ROUND_REPLAY_CAP and r["n"] > 0 and not r.get("dropped"):
                 obs["rounds_full"].append({"tokens": r["tokens"], "steps": r["steps"], "bound": r["bound"]})
         if call["budget_hit"] or call["pe_exc"] or state is None:
             break
     _R.round_ctx = None
+    if obs.get("handlers") or case["meta"].get("hostile"):
+        # function-level tie of the Lean string model (Models/ErrReport.lean): what the REAL escape() / escape_special_string_characters() /
+        # eval_expression do with the error texts of this run and with the event-carried texts of the script
+        from nemoguardrails.colang.v2_x.runtime import eval as ev_mod
+        from nemoguardrails.colang.v2_x.runtime import utils as ut_mod
+        texts = list(obs["texts"])
+        for e in case["events"]:
+            t = e.get("text")
+            if isinstance(t, str) and t not in texts and len(texts) < 12:
+                texts.append(t)
+        obs["pipeline"] = [hd.pipeline(_R.orig["eval"], ev_mod._escape_string, ut_mod.escape_special_string_characters, t) for t in texts]
+    del obs["texts"]
     if fr is not None:
         obs["frame"] = dict(fr.summary(), first=[list(v) for v in fr.violations[:3]])
     obs["round_orphans"] = obs["round_orphans"][:3]
@@ -965,6 +1137,8 @@ def model_requests(case, obs):
         reqs.append({"m": "C10.match", "cands": full, "heads": s.get("heads", [])})
     if "rprog" in obs:
         reqs.append({"m": "C10.round", "prog": obs["rprog"], "rounds": [{"tokens": r["tokens"], "steps": r["steps"]} for r in obs["rounds_full"]]})
+    if "pipeline" in obs:
+        reqs.append({"m": "C10.escape", "texts": [p["text"] for p in obs["pipeline"]], "templates": obs.get("templates", [])})
     return reqs
 
 
@@ -1053,6 +1227,49 @@ def compare(case, obs, mouts):
                     return f"round machine: B(program, state) Lean {mr['bound']} vs Python {r['bound']}"
                 if isinstance(mr["replay"], str):
                     return "round machine: a recorded real step is not a step of the abstraction: " + mr["replay"][:300]
+    if "pipeline" in obs:
+        m = mouts[i]
+        i += 1
+        r = compare_escape(obs, m)
+        if r:
+            return r
+    return None
+
+
+def _txt(cps):
+    return repr("".join(chr(c) for c in cps))[:80] if isinstance(cps, list) else str(cps)
+
+
+def compare_escape(obs, m):
+    """the Lean string model (Models/ErrReport.lean) against the real escape() / escape_special_string_characters() / eval_expression on
+    the error texts of this run; the static handler analysis against the Lean `Tpl.total`; a handler the analysis calls total must not raise"""
+    for p, mt in zip(obs["pipeline"], m["texts"]):
+        if p["escape"] != mt["escape"]:
+            how = " (the model of the code WITHOUT fixes/C10-escape-unencodable.diff agrees)" if p["escape"] == mt.get("escape_asis") else ""
+            return f"escape({_txt(p['text'])}): real {_txt(p['escape'])}, model {_txt(mt['escape'])}{how}"
+        if p["special"] != mt["special"]:
+            return f"escape_special_string_characters({_txt(p['text'])}): real {_txt(p['special'])}, model {_txt(mt['special'])}"
+        for k, what in (("esc_dq", '"P: {escape($e.error)} :Q"'), ("esc_sq", "'P: {escape($e.error)} :Q'"), ("raw_dq", '"P: {$e.error} :Q"'),
+                        ("raw_sq", "'P: {$e.error} :Q'")):
+            if p[k] != mt[k]:
+                if not p[k] and p.get(k + "_len", 0) == 0 and len(p["text"]) > 20000:
+                    continue  # simpleeval's MAX_STRING_LENGTH: outside the model (documented hypothesis of the tie)
+                if p[k] and not mt[k] and 35 in p["text"]:
+                    # the scanner is a SUFFICIENT condition: a literal that ends early may still leave an expression that evaluates when a
+                    # `#` follows (the rest of the line is a comment: `"P: ... \'"#b c" + 3 ...` evaluates to the truncated string)
+                    continue
+                return (f"template {what} with error text {_txt(p['text'])}: real evaluation {'succeeds' if p[k] else 'raises'}, the model says the "
+                        f"assembled literal is {'valid' if mt[k] else 'invalid'}")
+    for t, mt in zip(obs.get("templates", []), m.get("templates", [])):
+        py_total = not any(sg[0] == "raw" for sg in t["segs"])
+        if py_total != mt["total"]:
+            return f"handler template {t}: static analysis total={py_total}, Lean Tpl.total={mt['total']}"
+    hs = obs.get("handlers", {})
+    for c in obs.get("calls", []):
+        for fid in c.get("handler_errs", []):
+            if hs.get(fid, [False])[0]:
+                return (f"handler flow '{fid}' raised a runtime error while handling a ColangError during {c['event']} although the error text only "
+                        "reaches its templates through escape(): handler_literal_valid says the assembled literal is valid for EVERY text")
     return None
 
 
@@ -1084,6 +1301,9 @@ def oracle(case, obs):
         return "element classification failed: " + obs["classify_error"]
     meta = case["meta"]
     in_hyp = bool(obs.get("round_ranked")) and not obs.get("round_unsupported")
+    # programs with flows that react to ColangError: inside the hypothesis iff no statement of such a flow can raise on ANY error text
+    # (otherwise the flow's own failure wakes it again: an error-report loop without a statement that waits for an external event)
+    in_hyp = in_hyp and all(v[0] for v in obs.get("handlers", {}).values())
     for c in obs["calls"]:
         if c["budget_hit"]:
             if not in_hyp:
@@ -1107,6 +1327,17 @@ def oracle(case, obs):
     if meta.get("expect_error") and meta["kind"] != "abort":
         if sum(c["colang_errors"] for c in obs["calls"]) == 0:
             return f"no ColangError event was produced for the injected {meta['kind']} error"
+    if meta.get("relap") and meta.get("expect_error") and meta["kind"] != "abort" and meta["mode"] == "active" and not meta.get("at_instance") \
+            and meta["waits_before"] >= 1:
+        # the walk to the erroneous statement is repeated (the activated flow was restarted after its failure): the statement is reached a
+        # second time and its error must be reported again ("a runtime error ... is reported", every time it happens)
+        evs = [c["event"] for c in obs["calls"]]
+        if "Next" in evs and any("faulty" in c.get("failed_flows", []) for c in obs["calls"][: evs.index("Next") + 1]):
+            # (only if the faulty flow ITSELF failed in the first lap: a flow stuck behind a child that failed to start is not restarted)
+            k = evs.index("Next")
+            if sum(c["colang_errors"] for c in obs["calls"][k + 1:]) == 0:
+                return (f"the erroneous statement ({meta['kind']}) was reached a second time (same walk after the restart of the activated flow) but "
+                        "no ColangError event was produced for it")
     for c in obs["calls"]:
         # "fails only that flow": the instance in which the statement raised is failed (stopped, no head left, FlowFailed processed)
         # by the end of the call that processed the event
@@ -1127,11 +1358,20 @@ def oracle(case, obs):
     return None
 
 
+def _unencodable(obs):
+    return any(c == 0 or 0xD800 <= c <= 0xDFFF for p in obs.get("pipeline", []) for c in p["text"])
+
+
 def signature(case, obs, msg):
     if case["kind"] != "prog":
         return None
     meta = case["meta"]
     msg = msg or ""
+    if meta.get("handlers") and _unencodable(obs) and ("did not terminate within the step budget" in msg or "escape(" in msg or "template " in msg
+                                                       or "handler flow" in msg or "observer flow did not react" in msg):
+        # an error text with a character that cannot occur in Python source (NUL, lone surrogate): escape() leaves it alone, the literal of
+        # the handler's template does not parse, the handler fails on its own report
+        return "error-report-loop:unencodable-error-text"
     if meta["phase"] == "match" and ("observer flow did not react to event M" in msg):
         # the error is raised by _compute_event_matching_score (outside the try/except of _advance_head_front)
         if any(c["event"] == "M" and c["rtc_exc"] for c in obs.get("calls", [])):
@@ -1190,6 +1430,25 @@ def tags(case, obs):
         t.append("obs-style:" + meta["obs_style"])
     if meta.get("quick"):
         t.append("quick:" + meta["quick"])
+    if meta.get("instant") and "calls" in obs:
+        t.append("rounds-per-call:" + ("at-cap" if any(c.get("rtc_calls", 0) >= meta["max_events"] for c in obs["calls"]) else "below-cap"))
+    if meta.get("handlers"):
+        for h in meta["handlers"]:
+            t.append("handler:" + h)
+        hs = obs.get("handlers", {})
+        t.append("handlers:" + ("all-total" if hs and all(v[0] for v in hs.values()) else "some-may-raise" if hs else "none-found"))
+        if "calls" in obs:
+            mp = max([c.get("phases", 0) for c in obs["calls"]] or [0])
+            t.append("error-report-phases:" + (str(mp) if mp < 3 else "3+"))
+            if any(c.get("handler_errs") for c in obs["calls"]):
+                t.append("handler-raised")
+        for p in obs.get("pipeline", []):
+            tx = "".join(chr(c) for c in p["text"])
+            for name, pat in (("backslash-quote", '\\"'), ("quote", '"'), ("apostrophe", "'"), ("backslash", "\\"), ("brace", "{"), ("dollar", "$"),
+                              ("newline", "\n"), ("nul", "\x00")):
+                if pat in tx:
+                    t.append("error-text-has:" + name)
+        t = list(dict.fromkeys(t))
     if "calls" in obs:
         if any(c["budget_hit"] for c in obs["calls"]):
             t.append("budget-hit")
